@@ -48,12 +48,14 @@ Inductive sop :=
 | SPurge
 | SCreateColl (name : string)
 | SDropColl (name : string)
+| SDump (coll : string) (start : N)      (* a one-shot (Dump) feed with backfill from CAS `start` *)
 | SExpire.                       (* the expiry timer fires (bucket.doExpiration) *)
 
 Record sres := mkSres {
   sr_store : store;
   sr_resp : resp;
-  sr_events : list (N * string * event)      (* posted by this step *)
+  sr_events : list (N * string * event);     (* posted by this step *)
+  sr_dump : list fevent                      (* what a Dump feed started by this step delivers *)
 }.
 
 Definition create_coll (s : store) (name : string) : store * N :=
@@ -72,7 +74,7 @@ Definition kv_on (s : store) (x : sctx) (cid : N) (key : string) (op : kop) : sr
                     (match kr_commit res with Some c => c | None => s_lastcas s end)
                     high'
                     (s_log s ++ evs) in
-  mkSres s' (kr_resp res) evs.
+  mkSres s' (kr_resp res) evs [].
 
 (* Collection.expireDocuments: keys of this collection with 0 < exp <= now, in (exp, rowid) order
    (the docs_exp index); each is then Delete()d *)
@@ -102,6 +104,24 @@ Fixpoint expire_colls (s : store) (x : sctx) (cids : list N) (acc : list (N * st
       expire_colls s' x r acc'
   end.
 
+(* enqueueBackfillEvents ... ORDER BY cas : keys of a collection with cas >= start, in CAS order
+   (ties - possible only through WithMeta writes - in rowid order, which is what SQLite's stable
+   index scan yields; the harness avoids ties) *)
+Fixpoint insert_by_cas (d : dkey * row) (l : list (dkey * row)) : list (dkey * row) :=
+  match l with
+  | [] => [d]
+  | d' :: r => if r_cas (snd d) <? r_cas (snd d') then d :: l else d' :: insert_by_cas d r
+  end.
+
+Definition backfill_rows (s : store) (cid start : N) : list (dkey * row) :=
+  fold_left (fun acc d => insert_by_cas d acc)
+            (filter (fun d => (fst (fst d) =? cid) && (start <=? r_cas (snd d))) (s_docs s)) [].
+
+Definition backfill_events (s : store) (cid start : N) : list fevent :=
+  map (fun d => as_feed_event (cid - 1) (snd (fst d)) (event_of_row (snd d))) (backfill_rows s cid start).
+
+Definition marker (op : fopcode) : fevent := mkFevent op "" "" [] false false 0 0 0 0.
+
 Definition sstep (s : store) (x : sctx) (o : sop) : sres :=
   match o with
   | SKv coll key op =>
@@ -111,30 +131,35 @@ Definition sstep (s : store) (x : sctx) (o : sop) : sres :=
           (* NamedDataStore would create the collection on first use; the harness never addresses a
              collection that does not exist (it issues explicit create steps), so this branch is
              outside the exercised inputs and is modelled as a failing no-op *)
-          mkSres s (RErr EOther) []
+          mkSres s (RErr EOther) [] []
       end
   | SPurge =>
       (* DELETE FROM documents WHERE value IS NULL *)
       let keep := filter (fun d => is_some (r_value (snd d))) (s_docs s) in
       let n := N.of_nat (List.length (s_docs s) - List.length keep) in
-      mkSres (mkStore keep (s_colls s) (s_nextcoll s) (s_lastcas s) (s_high s) (s_log s)) (RNum n) []
+      mkSres (mkStore keep (s_colls s) (s_nextcoll s) (s_lastcas s) (s_high s) (s_log s)) (RNum n) [] []
   | SCreateColl name =>
       match coll_id s name with
-      | Some _ => mkSres s (RErr EOther) []
-      | None => mkSres (fst (create_coll s name)) ROk []
+      | Some _ => mkSres s (RErr EOther) [] []
+      | None => mkSres (fst (create_coll s name)) ROk [] []
       end
   | SDropColl name =>
-      if String.eqb name default_coll then mkSres s (RErr EOther) [] else
+      if String.eqb name default_coll then mkSres s (RErr EOther) [] [] else
       match coll_id s name with
-      | None => mkSres s ROk []
+      | None => mkSres s ROk [] []
       | Some cid =>
           mkSres (mkStore (filter (fun d => negb (fst (fst d) =? cid)) (s_docs s))
                           (filter (fun c => negb (fst c =? cid)) (s_colls s))
-                          (s_nextcoll s) (s_lastcas s) (s_high s) (s_log s)) ROk []
+                          (s_nextcoll s) (s_lastcas s) (s_high s) (s_log s)) ROk [] []
+      end
+  | SDump coll start =>
+      match coll_id s coll with
+      | Some cid => mkSres s ROk [] (marker FBegin :: backfill_events s cid start ++ [marker FEnd])
+      | None => mkSres s (RErr EOther) [] []
       end
   | SExpire =>
       let '(s', evs) := expire_colls s x (map fst (s_colls s)) [] in
-      mkSres s' ROk evs
+      mkSres s' ROk evs []
   end.
 
 (* ------------------------------------------------------------------------------------------ *)
@@ -155,22 +180,6 @@ Definition obs_of (cid : N) (key : string) (xnames : list string) (r : option ro
         (kr_resp (kstep c0 (KGetWithXattrs (xnames ++ ["$document"; "$document.revid"])) r))
         (match kr_resp (kstep c0 KExists r) with RBool b => b | _ => false end)
         (match r with Some r0 => Some (as_feed_event (cid - 1) key (event_of_row r0)) | None => None end).
-
-(* enqueueBackfillEvents ... ORDER BY cas : keys of a collection with cas >= start, in CAS order
-   (ties - possible only through WithMeta writes - in rowid order, which is what SQLite's stable
-   index scan yields; the harness avoids ties) *)
-Fixpoint insert_by_cas (d : dkey * row) (l : list (dkey * row)) : list (dkey * row) :=
-  match l with
-  | [] => [d]
-  | d' :: r => if r_cas (snd d) <? r_cas (snd d') then d :: l else d' :: insert_by_cas d r
-  end.
-
-Definition backfill_rows (s : store) (cid start : N) : list (dkey * row) :=
-  fold_left (fun acc d => insert_by_cas d acc)
-            (filter (fun d => (fst (fst d) =? cid) && (start <=? r_cas (snd d))) (s_docs s)) [].
-
-Definition backfill_events (s : store) (cid start : N) : list fevent :=
-  map (fun d => as_feed_event (cid - 1) (snd (fst d)) (event_of_row (snd d))) (backfill_rows s cid start).
 
 Record snapshot := mkSnap {
   sn_colls : list string;                          (* ListDataStores *)
@@ -199,6 +208,7 @@ Definition snap (s : store) (colls keys xnames : list string) : snapshot :=
 Record ostep := mkOstep {
   os_resp : resp;
   os_live : list fevent;                           (* events delivered to the live feeds, in order *)
+  os_dump : list fevent;                           (* events delivered to the Dump feed of an SDump step *)
   os_snap : snapshot
 }.
 
@@ -217,7 +227,7 @@ Fixpoint srun_from (s : store) (c : scase) (steps : list (sctx * sop)) : list os
   | [] => []
   | (x, o) :: r =>
       let res := sstep s x o in
-      mkOstep (sr_resp res) (fevents_of (sr_events res))
+      mkOstep (sr_resp res) (fevents_of (sr_events res)) (sr_dump res)
               (snap (sr_store res) (sc_colls c) (sc_keys c) (sc_xnames c))
       :: srun_from (sr_store res) c r
   end.
